@@ -83,17 +83,36 @@ theorem wakeN_head_blocked (a : Int) (l : List (Nat × Int)) (w : Nat × Int) (w
       obtain ⟨rfl, _⟩ := h
       simp; omega
 
+/-- The invariant for a capacity that may change (`set_capacity`).  `available` may be negative
+    (over-committed after a reduction below the held amount); conservation is exact at all times. -/
 structure Inv (s : St) : Prop where
   capPos : 0 < s.cap
   conserve : s.avail + amtSum s.held = s.cap
-  availNonneg : 0 ≤ s.avail
   heldPos : ∀ g ∈ s.held, 0 < g.2
-  waitFits : ∀ w ∈ s.waiters, 0 < w.2 ∧ w.2 ≤ s.cap
+  waitPos : ∀ w ∈ s.waiters, 0 < w.2
   headBlocked : ∀ w ws, s.waiters = w :: ws → s.avail < w.2
 
 theorem init_inv (cap : Int) (h : 0 < cap) : Inv (St.init cap) :=
-  ⟨h, by simp [St.init], by simp [St.init]; omega, by simp [St.init], by simp [St.init],
+  ⟨h, by simp [St.init], by simp [St.init], by simp [St.init],
    by intro w ws hw; simp [St.init] at hw⟩
+
+/-- the part of the old invariant that only holds while nobody has lowered the capacity below the
+    held amount: `0 ≤ available`, i.e. `held ≤ capacity` -/
+def Within (s : St) : Prop := 0 ≤ s.avail
+
+/-- whoever is woken fits: if `_wake_waiters` wakes at least one request, what is left is ≥ 0 -/
+theorem wakeN_pos_nonneg (a : Int) (l : List (Nat × Int)) (hpos : ∀ w ∈ l, 0 < w.2) (h : 0 < wakeN a l) :
+    0 ≤ a - amtSum (l.take (wakeN a l)) := by
+  cases l with
+  | nil => simp [wakeN] at h
+  | cons w ws =>
+    have hw : w.2 ≤ a := by
+      unfold wakeN at h; split at h
+      · assumption
+      · omega
+    have hwp := hpos w List.mem_cons_self
+    have := wakeN_sum_le a (w :: ws) hpos (by omega)
+    omega
 
 theorem amtSum_nonneg (l : List (Nat × Int)) (h : ∀ g ∈ l, 0 < g.2) : 0 ≤ amtSum l := by
   induction l with
@@ -117,8 +136,12 @@ theorem step_tryAcquire (s : St) (id : Nat) (a : Int) : step s (.tryAcquire id a
 
 theorem step_release (s : St) (id : Nat) : step s (.release id) = release s id := rfl
 
-theorem step_cap (s : St) (o : Op) : (step s o).1.cap = s.cap := by
+theorem step_setCapacity (s : St) (c : Int) : step s (.setCapacity c) = setCapacity s c := rfl
+
+/-- only `set_capacity` changes the capacity -/
+theorem step_cap (s : St) (o : Op) (ho : ∀ c, o ≠ .setCapacity c) : (step s o).1.cap = s.cap := by
   cases o with
+  | setCapacity c => exact absurd rfl (ho c)
   | acquire id a =>
     rw [step_acquire]; split
     · rfl
@@ -136,9 +159,8 @@ theorem step_cap (s : St) (o : Op) : (step s o).1.cap = s.cap := by
 theorem grant_inv (s : St) (inv : Inv s) (id : Nat) (a : Int) (hbad : badAmount s a = false) (hfit : a ≤ s.avail) :
     Inv { s with avail := s.avail - a, held := s.held ++ [(id, a)] } := by
   have hpos : 0 < a := by simp [badAmount] at hbad; omega
-  refine ⟨inv.capPos, ?_, ?_, ?_, inv.waitFits, ?_⟩
+  refine ⟨inv.capPos, ?_, ?_, inv.waitPos, ?_⟩
   · simp; have := inv.conserve; omega
-  · simp; omega
   · intro g hg
     rcases List.mem_append.mp hg with h | h
     · exact inv.heldPos g h
@@ -157,11 +179,11 @@ theorem step_inv (s : St) (o : Op) (inv : Inv s) : Inv (step s o).1 := by
       · rename_i hfit; exact grant_inv s inv id a hbad' hfit
       · rename_i hnf
         have hv : 0 < a ∧ a ≤ s.cap := by simp [badAmount] at hbad'; omega
-        refine ⟨inv.capPos, inv.conserve, inv.availNonneg, inv.heldPos, ?_, ?_⟩
+        refine ⟨inv.capPos, inv.conserve, inv.heldPos, ?_, ?_⟩
         · intro w hw
           rcases List.mem_append.mp hw with h | h
-          · exact inv.waitFits w h
-          · simp at h; subst h; exact hv
+          · exact inv.waitPos w h
+          · simp at h; subst h; exact hv.1
         · intro w ws hw
           cases hq : s.waiters with
           | nil => rw [hq] at hw; simp at hw; obtain ⟨rfl, _⟩ := hw; simp; omega
@@ -191,28 +213,126 @@ theorem step_inv (s : St) (o : Op) (inv : Inv s) : Inv (step s o).1 := by
       split
       · rename_i hex; omega
       · rename_i hok
-        have hwpos : ∀ w ∈ s.waiters, 0 < w.2 := fun w hw => (inv.waitFits w hw).1
-        have hfits := wakeN_sum_le (s.avail + g.2) s.waiters hwpos (by have := inv.availNonneg; omega)
-        refine ⟨inv.capPos, ?_, ?_, ?_, ?_, ?_⟩
-        · simp; omega
+        have hwpos : ∀ w ∈ s.waiters, 0 < w.2 := inv.waitPos
+        have htd := amtSum_take_drop (wakeN (s.avail + g.2) s.waiters) s.waiters
+        refine ⟨inv.capPos, ?_, ?_, ?_, ?_⟩
         · simp; omega
         · intro x hx
           rcases List.mem_append.mp hx with h | h
           · exact inv.heldPos x (mem_eraseHeld h)
           · exact hwpos x (List.mem_of_mem_take h)
-        · intro w hw; exact inv.waitFits w (List.mem_of_mem_drop hw)
+        · intro w hw; exact inv.waitPos w (List.mem_of_mem_drop hw)
         · intro w ws hw
           exact wakeN_head_blocked (s.avail + g.2) s.waiters w ws hw
+  | setCapacity c =>
+    rw [step_setCapacity]; unfold setCapacity
+    split
+    · exact inv
+    · rename_i hc
+      have hcons := inv.conserve
+      dsimp only
+      split
+      · have htd := amtSum_take_drop (wakeN (s.avail + (c - s.cap)) s.waiters) s.waiters
+        refine ⟨by show 0 < c; omega, ?_, ?_, ?_, ?_⟩
+        · simp; omega
+        · intro x hx
+          rcases List.mem_append.mp hx with h | h
+          · exact inv.heldPos x h
+          · exact inv.waitPos x (List.mem_of_mem_take h)
+        · intro w hw; exact inv.waitPos w (List.mem_of_mem_drop hw)
+        · intro w ws hw
+          exact wakeN_head_blocked (s.avail + (c - s.cap)) s.waiters w ws hw
+      · refine ⟨by show 0 < c; omega, ?_, inv.heldPos, inv.waitPos, ?_⟩
+        · simp; omega
+        · intro w ws hw
+          have := inv.headBlocked w ws hw
+          simp; omega
 
 theorem run_inv (s : St) (ops : List Op) (inv : Inv s) : Inv (run s ops) := by
   induction ops generalizing s with
   | nil => exact inv
   | cons o os ih => exact ih _ (step_inv s o inv)
 
-theorem run_cap (s : St) (ops : List Op) : (run s ops).cap = s.cap := by
+/-- an operation list that never calls `set_capacity` -/
+def FixedCap (ops : List Op) : Prop := ∀ o ∈ ops, ∀ c, o ≠ .setCapacity c
+
+theorem run_cap (s : St) (ops : List Op) (hf : FixedCap ops) : (run s ops).cap = s.cap := by
   induction ops generalizing s with
   | nil => rfl
-  | cons o os ih => simp [run, ih, step_cap]
+  | cons o os ih =>
+    simp only [run]
+    rw [ih _ (fun o' ho' => hf o' (List.mem_cons_of_mem _ ho')), step_cap s o (hf o List.mem_cons_self)]
+
+/-- Without `set_capacity` the old bounds are invariant too: `0 ≤ available` (held ≤ capacity) and
+    every queued request fits the capacity.  Over-commitment can only be created by lowering the
+    capacity, never by an acquire or a release. -/
+structure Fixed (s : St) : Prop where
+  within : 0 ≤ s.avail
+  waitFits : ∀ w ∈ s.waiters, w.2 ≤ s.cap
+
+theorem step_within (s : St) (o : Op) (inv : Inv s) (ho : ∀ c, o ≠ .setCapacity c) (h : 0 ≤ s.avail) :
+    0 ≤ (step s o).1.avail := by
+  cases o with
+  | setCapacity c => exact absurd rfl (ho c)
+  | acquire id a =>
+    rw [step_acquire]; split
+    · exact h
+    · split
+      · simp; omega
+      · exact h
+  | tryAcquire id a =>
+    rw [step_tryAcquire]; split
+    · exact h
+    · split
+      · simp; omega
+      · exact h
+  | release id =>
+    rw [step_release]; unfold release
+    split
+    · exact h
+    · rename_i g hg
+      have hgpos := inv.heldPos g (findHeld_mem hg).1
+      dsimp only
+      split
+      · exact h
+      · have h' := wakeN_sum_le (s.avail + g.2) s.waiters inv.waitPos (by omega)
+        simp; omega
+
+theorem step_fixed (s : St) (o : Op) (inv : Inv s) (ho : ∀ c, o ≠ .setCapacity c) (f : Fixed s) :
+    Fixed (step s o).1 := by
+  refine ⟨step_within s o inv ho f.within, ?_⟩
+  rw [step_cap s o ho]
+  cases o with
+  | setCapacity c => exact absurd rfl (ho c)
+  | acquire id a =>
+    rw [step_acquire]; split
+    · exact f.waitFits
+    · rename_i hbad
+      split
+      · exact f.waitFits
+      · intro w hw
+        rcases List.mem_append.mp hw with h | h
+        · exact f.waitFits w h
+        · simp at h; subst h; simp [badAmount] at hbad; omega
+  | tryAcquire id a =>
+    rw [step_tryAcquire]; split
+    · exact f.waitFits
+    · split <;> exact f.waitFits
+  | release id =>
+    rw [step_release]; unfold release
+    split
+    · exact f.waitFits
+    · dsimp only
+      split
+      · exact f.waitFits
+      · intro w hw; exact f.waitFits w (List.mem_of_mem_drop hw)
+
+theorem run_fixed (s : St) (ops : List Op) (inv : Inv s) (hf : FixedCap ops) (f : Fixed s) : Fixed (run s ops) := by
+  induction ops generalizing s with
+  | nil => exact f
+  | cons o os ih =>
+    exact ih _ (step_inv s o inv) (fun o' ho' => hf o' (List.mem_cons_of_mem _ ho'))
+      (step_fixed s o inv (hf o List.mem_cons_self) f)
 
 theorem run_append (s : St) (a b : List Op) : run s (a ++ b) = run (run s a) b := by
   induction a generalizing s with
